@@ -47,4 +47,8 @@ def run(ctx: Ctx) -> None:
                        "mkdir calls must not leave a store that no later process completes")
     n8 = S.dirs_created_unconditionally(ctx, v, "C06.R8")
     rep.floor("C06.R8", n8, 2)
+    rep.rule("C06.R9", "fetch_paths takes a path for committed only when os.path.exists() holds for the path's own entry (a commit killed after its mkdir leaves the directory, "
+                       "not the link; a link whose blob was never written dangles)")
+    n9 = S.path_entry_presence(ctx, v, "C06.R9")
+    rep.floor("C06.R9", n9, 1)
     rep.floor("C06.effects", v.n_effects, 9)
